@@ -184,6 +184,32 @@ def carry1(prog: Program) -> RuleResult:
             f"evaluation recorded decides what the next (or an interleaved) evaluation of the same expression yields",
         )
     r._acc, r._resets = acc, resets
+    # a memoising decorator on a method that is handed *values* is state of the same kind: the memo is keyed by the identity of the value
+    # (HashedValue hashes by id) and answers a later evaluation with what the user's object looked like during an earlier one
+    VALUE_TYPES = ("HashedValue", "OperationResult", "Dict[int, HashedValue]", "Any")
+    for f in sorted(ev, key=lambda x: x.qual):
+        if not f.is_lru_cache:
+            continue
+        a = f.node.args
+        params = (a.posonlyargs + a.args + a.kwonlyargs)[1:]
+        takes_values = [p_.arg for p_ in params if p_.annotation is None or any(t in src(p_.annotation) for t in VALUE_TYPES)]
+        if a.vararg is not None or a.kwarg is not None:
+            takes_values.append("*")
+        # ... unless the method only asks *which* ids are bound: what it computes must come from the user's object (`<value>.value`, directly or
+        # through an element of the bindings) for the memo to go stale when that object changes
+        tainted = set(takes_values)
+        for _ in range(2):
+            for x in walk_local(f.node):
+                if isinstance(x, ast.Assign) and len(x.targets) == 1 and isinstance(x.targets[0], ast.Name) and any(isinstance(y, ast.Name) and y.id in tainted for y in ast.walk(x.value)):
+                    tainted.add(x.targets[0].id)
+        reads_user = [x for x in walk_local(f.node) if isinstance(x, ast.Attribute) and x.attr == "value" and any(isinstance(y, ast.Name) and y.id in tainted for y in ast.walk(x.value))]
+        if takes_values and not reads_user and "*" not in takes_values:
+            r.ok(f"{f.short}#memo-not-keyed-by-values", site(f), f"memoised on ({', '.join(p_.arg for p_ in params)})", "takes bindings but never looks at a user object (asks which ids are bound)")
+            continue
+        r.check(not takes_values, f"{f.short}#memo-not-keyed-by-values", site(f), f"memoised on ({', '.join(p_.arg for p_ in params)})",
+                "the memoised method is keyed by structure only (flags, nothing bound during evaluation)",
+                f"{f.short} is memoised and takes the values {takes_values}: the memo is keyed by the identity of a value and keeps what was computed from the user's object the first time - "
+                f"a second evaluation of the query after `obj.n = ...` still answers with the old attribute value (objects that satisfy the conditions now are dropped, the(...) returns a stale result)")
     return r
 
 
@@ -928,6 +954,21 @@ def reset_with_evaluation(prog: Program) -> RuleResult:
                     "before either is consumed share the state of whichever runs first (the second one yields nothing for a rule query)")
     if n == 0:
         raise AnalysisError("CARRY-RESET-TIME: no evaluation entry with a reset or sweep found")
+    # ... and at no other time: the state belongs to the evaluation that is running.  A reset in a `finally` of an evaluation generator also runs
+    # when an old, abandoned iterator of the query is finalised - dropped or collected in the middle of a newer evaluation, whose
+    # book-keeping (what was concluded already, which pass a disjunction is in) it wipes
+    callers = []
+    for g in sorted(prog.functions.values(), key=lambda x: x.qual):
+        if ".entity_query_language." not in g.qual:
+            continue
+        for c_ in calls_in(g.node):
+            if call_name(c_) == "_reset_evaluation_state_" and not is_super_call(c_):
+                callers.append((g, c_))
+    outside = [(g, c_) for g, c_ in callers if g.name not in ("evaluate", "_reset_evaluation_state_")]
+    r.check(bool(callers) and not outside, "_reset_evaluation_state_#called-when-an-evaluation-starts-only", site(outside[0][0], outside[0][1]) if outside else "", f"{len(callers)} call site(s)",
+            "the reset hooks are called from evaluate() (and from each other) only",
+            f"{outside[0][0].short if outside else ''} resets the evaluation state (`{src(outside[0][1])[:50] if outside else ''}`): it runs whenever that generator ends - also when an abandoned iterator "
+            "of the same query is finalised while a newer evaluation is under way, which then concludes a second time for bindings it had handled")
     return r
 
 
